@@ -74,3 +74,9 @@ Proof. reflexivity. Qed.
 From SymfcG Require Import ShapesO1.
 Theorem c09_recorded_sources_in_force : ShapesO1_as_recorded = true.
 Proof. repeat split; reflexivity. Qed.
+
+(** The remaining source this property rests on is the recorded one (the basis-set classes of orders 2-4): whole-function match,
+    regenerated on every run (closes the gap between "the expected statements are present" and "nothing else was added"). *)
+From SymfcG Require Import ShapesBasis.
+Theorem c09_recorded_sources2_in_force : ShapesBasis_as_recorded = true.
+Proof. repeat split; reflexivity. Qed.
